@@ -352,3 +352,36 @@ Definition pushed (i : nat) (ops : list op) : list dentry :=
 Definition appended (i : nat) (k : key) (ops : list op) : list Z :=
   flat_map (fun o => match o with Append j k' x => if Nat.eqb j i && Z.eqb k' k then [x] else [] | _ => [] end) ops.
 Definition rec_cells (l : line) : list (option val) := match l with Rec _ cs => cs | Hdr _ _ => [] end.
+
+(* ---- history-level vocabulary --------------------------------------------------- *)
+(* the cells rule deck writes for the entries of a deck (non-mappings are skipped) *)
+Definition entry_cells (fs : list key) (d : list dentry) : list (list (option val)) :=
+  flat_map (fun e => match e with DMap m => [map (fun k => lookupz k m) fs] | DOther _ => [] end) d.
+(* the element logged by a streak record *)
+Definition rec_vals (l : line) : list Z := match l with Rec _ [Some (VZ x)] => [x] | _ => [] end.
+Definition touches (i : nat) (o : op) : bool :=
+  match o with Write j _ | Chg j _ => Nat.eqb j i | _ => false end.
+(* one snapshot per effective logger run: what rule always must have written over a history *)
+Fixpoint snaps (c : cfg) (s : st) (ops : list op) : list line :=
+  match ops with
+  | [] => []
+  | o :: r =>
+      (match o with
+       | Start => [Rec (now s) (cells (shares s) (clog c) (pfields (prepare c (reopen s))))]
+       | Run | Stop => if active s then [Rec (now s) (cells (shares s) (clog c) (pfields s))] else []
+       | _ => []
+       end) ++ snaps c (step c s o) r
+  end.
+(* the cells seen by the most recent effective logger run (START included): what rule change compares with *)
+Fixpoint last_seen (c : cfg) (s : st) (ops : list op) (acc : option (list (option val)))
+  : option (list (option val)) :=
+  match ops with
+  | [] => acc
+  | o :: r =>
+      last_seen c (step c s o) r
+        (match o with
+         | Start => Some (cells (shares s) (clog c) (pfields (prepare c (reopen s))))
+         | Run | Stop => if active s then Some (cells (shares s) (clog c) (pfields s)) else acc
+         | _ => acc
+         end)
+  end.
